@@ -16,7 +16,7 @@
 
 use super::c01_env::Env;
 use super::c01_proto as proto;
-use super::c01_tcp::{self as tcp, Chunk, Entry, Failure, Fault, Mode, Order, TcpCase, TcpStats};
+use super::c01_tcp::{self as tcp, Chunk, Dual, DualName, Entry, Failure, Fault, Listen, Mode, Order, TcpCase, TcpStats};
 use super::c01_udp::{self as udp, Topo, UKind, UdpCase, UdpStats};
 use crate::Args;
 use crate::report::Report;
@@ -62,6 +62,8 @@ struct Outcome {
     tcp: Option<TcpStats>,
     udp: Option<UdpStats>,
     wall: Duration,
+    /// dual-stack sub-matrix: the direct control connection failed too (why)
+    vacuous: Option<String>,
 }
 
 // ---------------------------------------------------------------------------------------
@@ -108,11 +110,11 @@ fn exec_once(env: &Env, case: &Case, deadline_s: u64, short_udp: bool) -> Outcom
             match case {
                 Case::Tcp(c) => {
                     let o = tcp::run_tcp(&Mode::Penguin(env), c, deadline_s, uniq).await;
-                    Outcome { failures: o.failures, obs: o.obs, port_race: o.port_race, tcp: Some(o.stats), udp: None, wall: o.wall }
+                    Outcome { failures: o.failures, obs: o.obs, port_race: o.port_race, tcp: Some(o.stats), udp: None, wall: o.wall, vacuous: o.vacuous }
                 }
                 Case::Udp(c) => {
                     let o = udp::run_udp(env, c, deadline_s, short_udp).await;
-                    Outcome { failures: o.failures, obs: o.obs, port_race: o.port_race, tcp: None, udp: Some(o.stats), wall: o.wall }
+                    Outcome { failures: o.failures, obs: o.obs, port_race: o.port_race, tcp: None, udp: Some(o.stats), wall: o.wall, vacuous: None }
                 }
             }
         });
@@ -126,6 +128,7 @@ fn exec_once(env: &Env, case: &Case, deadline_s: u64, short_udp: bool) -> Outcom
         tcp: None,
         udp: None,
         wall: Duration::ZERO,
+        vacuous: None,
     })
 }
 
@@ -185,6 +188,9 @@ struct Sums {
     /// (also counted in tcp_cases_clean / udp_cases_clean)
     v6_cases_clean: u64,
     stray_cases_clean: u64,
+    families_cases_clean: u64,
+    dual_cases_clean: u64,
+    dual_cases_vacuous: u64,
     max_wall_ms: u128,
     flaky: Vec<Value>,
     unconfirmed: u64,
@@ -236,7 +242,16 @@ struct Bounds {
     ipv6_loopback: bool,
     /// (client->target, target->client) lengths of the IPv6-literal sub-matrix
     tcp_v6_lens: Vec<(usize, usize)>,
+    /// [::1] exists for UDP sockets too: the two-address-families topologies are part of the matrix
+    udp_two_families: bool,
+    /// (client->target, target->client) lengths of the dual-stack-name sub-matrix
+    tcp_dual_lens: Vec<(usize, usize)>,
 }
+
+/// close order, chunking and connections of the dual-stack-name sub-matrix
+const DUAL_ORDER: Order = Order::ClientHalf;
+const DUAL_CHUNK: Chunk = Chunk::One;
+const DUAL_CONC: usize = 1;
 
 /// close order, chunking and connections of the IPv6-literal sub-matrix
 const V6_ORDER: Order = Order::ClientHalf;
@@ -247,11 +262,26 @@ fn bounds(args: &Args) -> Bounds {
     // the default receive window is 512 frames and the bridges read at most 8 KiB per frame, so
     // 512 * 8 KiB = 4 MiB is the least stream length that certainly needs a window update
     if args.thorough() {
-        Bounds { tcp_lens: vec![0, 1, 4099, 3 * 512 * 8192 + 5], tcp_len_window: None, slow_udp: true, concs: vec![1, 3, 5], udp_lens: vec![0, 1, 2, 3, 4, 5, 1400, 1472, 9000, 65000], deadline_s: 40, parallel: args.threads.clamp(1, 8), ipv6_loopback: tcp::ipv6_loopback(), tcp_v6_lens: vec![(1, 1), (70001, 70001)] }
+        Bounds { tcp_lens: vec![0, 1, 4099, 3 * 512 * 8192 + 5], tcp_len_window: None, slow_udp: true, concs: vec![1, 3, 5], udp_lens: vec![0, 1, 2, 3, 4, 5, 1400, 1472, 9000, 65000], deadline_s: 40, parallel: args.threads.clamp(1, 8), ipv6_loopback: tcp::ipv6_loopback(), tcp_v6_lens: vec![(1, 1), (70001, 70001)], udp_two_families: udp::ipv6_loopback(), tcp_dual_lens: vec![(4099, 4099)] }
     } else {
         // 70001 B: nine 8 KiB frames, everywhere; 4198403 B (one window + 4099 B: needs a window update): sub-matrix
-        Bounds { tcp_lens: vec![0, 1, 70001], tcp_len_window: Some(512 * 8192 + 4099), slow_udp: false, concs: vec![1, 3], udp_lens: vec![0, 1, 3, 4, 1400], deadline_s: 30, parallel: args.threads.clamp(1, 8), ipv6_loopback: tcp::ipv6_loopback(), tcp_v6_lens: vec![(1, 1), (70001, 70001)] }
+        Bounds { tcp_lens: vec![0, 1, 70001], tcp_len_window: Some(512 * 8192 + 4099), slow_udp: false, concs: vec![1, 3], udp_lens: vec![0, 1, 3, 4, 1400], deadline_s: 30, parallel: args.threads.clamp(1, 8), ipv6_loopback: tcp::ipv6_loopback(), tcp_v6_lens: vec![(1, 1), (70001, 70001)], udp_two_families: udp::ipv6_loopback(), tcp_dual_lens: vec![(4099, 4099)] }
     }
+}
+
+/// The dual-stack-name sub-matrix (run by a child process inside a private mount namespace).
+fn dual_matrix(b: &Bounds) -> Vec<Case> {
+    let mut v = Vec::new();
+    for name in DualName::ALL {
+        for listen in Listen::ALL {
+            for entry in tcp::DUAL_ENTRIES {
+                for &(c2t, t2c) in &b.tcp_dual_lens {
+                    v.push(Case::Tcp(TcpCase { entry, c2t, t2c, chunk: DUAL_CHUNK, order: DUAL_ORDER, conc: DUAL_CONC, dual: Some(Dual { name, listen }) }));
+                }
+            }
+        }
+    }
+    v
 }
 
 fn matrix(b: &Bounds) -> Vec<Case> {
@@ -269,11 +299,11 @@ fn matrix(b: &Bounds) -> Vec<Case> {
                     for &c2t in &lens {
                         if order == Order::Refuse {
                             // no target: the target->client payload does not exist
-                            v.push(Case::Tcp(TcpCase { entry, c2t, t2c: 0, chunk, order, conc }));
+                            v.push(Case::Tcp(TcpCase { entry, c2t, t2c: 0, chunk, order, conc, dual: None }));
                             continue;
                         }
                         for &t2c in &lens {
-                            v.push(Case::Tcp(TcpCase { entry, c2t, t2c, chunk, order, conc }));
+                            v.push(Case::Tcp(TcpCase { entry, c2t, t2c, chunk, order, conc, dual: None }));
                         }
                     }
                 }
@@ -284,7 +314,7 @@ fn matrix(b: &Bounds) -> Vec<Case> {
         // target on [::1], named as an IPv6 literal by the entry points that can express one
         for entry in Entry::V6 {
             for &(c2t, t2c) in &b.tcp_v6_lens {
-                v.push(Case::Tcp(TcpCase { entry, c2t, t2c, chunk: V6_CHUNK, order: V6_ORDER, conc: V6_CONC }));
+                v.push(Case::Tcp(TcpCase { entry, c2t, t2c, chunk: V6_CHUNK, order: V6_ORDER, conc: V6_CONC, dual: None }));
             }
         }
     }
@@ -293,6 +323,16 @@ fn matrix(b: &Bounds) -> Vec<Case> {
             let c = UdpCase { kind, size: udp::STRAY_LEN, topo };
             if c.valid() {
                 v.push(Case::Udp(c));
+            }
+        }
+    }
+    if b.udp_two_families {
+        for kind in UKind::ALL {
+            for topo in Topo::FAMILIES {
+                let c = UdpCase { kind, size: udp::FAMILIES_LEN, topo };
+                if c.valid() {
+                    v.push(Case::Udp(c));
+                }
             }
         }
     }
@@ -332,7 +372,7 @@ fn weight(c: &Case) -> usize {
 fn control_self_test() -> Result<(), String> {
     let rt = tokio::runtime::Builder::new_multi_thread().worker_threads(3).thread_name("c01-selftest").enable_all().build().map_err(|e| format!("runtime: {e}"))?;
     let res = rt.block_on(async {
-        let mk = |order, c2t, t2c, conc| TcpCase { entry: Entry::TcpRemote, c2t, t2c, chunk: Chunk::Seven, order, conc };
+        let mk = |order, c2t, t2c, conc| TcpCase { entry: Entry::TcpRemote, c2t, t2c, chunk: Chunk::Seven, order, conc, dual: None };
         // a faithful relay is indistinguishable from a direct connection: the oracle must be silent
         for order in [Order::ClientHalf, Order::TargetHalf, Order::ClientClose, Order::TargetClose] {
             for (a, b) in [(0usize, 0usize), (1, 1), (70001, 5), (0, 70001)] {
@@ -367,14 +407,337 @@ fn control_self_test() -> Result<(), String> {
 }
 
 // ---------------------------------------------------------------------------------------
+// dual-stack names: a sub-run in a child process with a private mount namespace
+// ---------------------------------------------------------------------------------------
+//
+// What a host name resolves to is decided by /etc/hosts (through glibc's `files` NSS module). The
+// sub-matrix needs names with BOTH loopback addresses, so the vapp binary is run once more as a
+// child; the child, before anything else, leaves the mount namespace of everybody else
+// (`unshare(CLONE_NEWNS)`, propagation private) and bind-mounts a hosts file of its own over
+// /etc/hosts. Nothing outside the child can see that mount, and it ends with the child. If any
+// step is not possible here (no privilege, no [::1], a resolver that does not read /etc/hosts) the
+// sub-matrix is SKIPPED and the evidence says why: not a violation, not a machinery error.
+
+/// set in the child: run the dual-stack sub-matrix (or the cases of `DUAL_CASES_ENV`) in a private mount namespace
+const DUAL_CHILD_ENV: &str = "VERIF_C01_DUAL_CHILD";
+/// optional, for the child: `{"cases": [case JSON ...], "runs": N}` instead of the whole sub-matrix
+const DUAL_CASES_ENV: &str = "VERIF_C01_DUAL_CASES";
+/// testing aid: the unshare step reports failure (what an unprivileged process would see)
+const DUAL_FORCE_FAIL_ENV: &str = "VERIF_C01_DUAL_FORCE_UNSHARE_FAIL";
+
+fn dual_tmp_dir(pid: u32) -> std::path::PathBuf {
+    std::env::temp_dir().join(format!("verif-c01-dual-{pid}"))
+}
+
+fn errno_text(what: &str) -> String {
+    format!("{what}: {}", std::io::Error::last_os_error())
+}
+
+/// Steps (a): private mount namespace with a hosts file of our own over /etc/hosts.
+fn dual_enter_namespace() -> Result<(), String> {
+    use std::ffi::CString;
+    if !tcp::ipv6_loopback() {
+        return Err("this machine has no IPv6 loopback address [::1]".into());
+    }
+    if std::env::var_os(DUAL_FORCE_FAIL_ENV).is_some() {
+        return Err(format!("unshare(CLONE_NEWNS): Operation not permitted (os error 1) [forced by {DUAL_FORCE_FAIL_ENV}]"));
+    }
+    // SAFETY: plain system calls; the strings are NUL-terminated and live across the calls
+    unsafe {
+        if libc::unshare(libc::CLONE_NEWNS) != 0 {
+            return Err(errno_text("unshare(CLONE_NEWNS)"));
+        }
+        let root = CString::new("/").expect("cstring");
+        if libc::mount(std::ptr::null(), root.as_ptr(), std::ptr::null(), libc::MS_REC | libc::MS_PRIVATE, std::ptr::null()) != 0 {
+            return Err(errno_text("mount(NULL, \"/\", NULL, MS_REC|MS_PRIVATE)"));
+        }
+    }
+    let dir = dual_tmp_dir(std::process::id());
+    std::fs::create_dir_all(&dir).map_err(|e| format!("create {}: {e}", dir.display()))?;
+    let hosts = dir.join("hosts");
+    std::fs::write(&hosts, tcp::dual_hosts_file()).map_err(|e| format!("write {}: {e}", hosts.display()))?;
+    let src = CString::new(hosts.to_string_lossy().as_bytes()).map_err(|e| format!("path: {e}"))?;
+    let dst = CString::new("/etc/hosts").expect("cstring");
+    // SAFETY: as above
+    if unsafe { libc::mount(src.as_ptr(), dst.as_ptr(), std::ptr::null(), libc::MS_BIND, std::ptr::null()) } != 0 {
+        return Err(errno_text("mount(hosts file, \"/etc/hosts\", NULL, MS_BIND)"));
+    }
+    Ok(())
+}
+
+fn dual_leave_namespace() {
+    // the mount ends with the process anyway; the file must not stay behind
+    if let Ok(dst) = std::ffi::CString::new("/etc/hosts") {
+        // SAFETY: plain system call on a NUL-terminated string
+        unsafe {
+            libc::umount2(dst.as_ptr(), libc::MNT_DETACH);
+        }
+    }
+    let _ = std::fs::remove_dir_all(dual_tmp_dir(std::process::id()));
+}
+
+/// Step (b): do the names resolve as intended (both loopback addresses, nothing else), through the
+/// very function the server uses? Returns name -> addresses in the order `lookup_host` gave them.
+fn dual_check_resolver() -> Result<Value, String> {
+    let rt = tokio::runtime::Builder::new_current_thread().enable_all().build().map_err(|e| format!("runtime: {e}"))?;
+    let mut order = serde_json::Map::new();
+    for name in DualName::ALL.iter().map(|n| n.host()).chain(["localhost"]) {
+        let got: Vec<std::net::IpAddr> = match rt.block_on(async { tokio::time::timeout(Duration::from_secs(10), tokio::net::lookup_host((name, 1))).await }) {
+            Ok(Ok(it)) => it.map(|a| a.ip()).collect(),
+            Ok(Err(e)) => return Err(format!("inside the private mount namespace lookup_host(\"{name}\") fails: {e} (the resolver does not read /etc/hosts?)")),
+            Err(_) => return Err(format!("inside the private mount namespace lookup_host(\"{name}\") took more than 10 s")),
+        };
+        let v4 = std::net::IpAddr::from([127, 0, 0, 1]);
+        let v6 = std::net::IpAddr::V6(std::net::Ipv6Addr::LOCALHOST);
+        let as_intended = if name == "localhost" { !got.is_empty() && got.iter().all(|a| *a == v4) } else { got.contains(&v4) && got.contains(&v6) && got.iter().all(|a| *a == v4 || *a == v6) };
+        if !as_intended {
+            return Err(format!("inside the private mount namespace lookup_host(\"{name}\") returns {got:?}, not what the hosts file says (the resolver does not read /etc/hosts, or filters an address family)"));
+        }
+        order.insert(name.to_string(), json!(got.iter().map(ToString::to_string).collect::<Vec<_>>()));
+    }
+    Ok(Value::Object(order))
+}
+
+fn failure_json(f: &Failure) -> Value {
+    json!({"key": f.key, "desc": f.desc, "deadline": f.deadline})
+}
+
+fn failure_from_json(v: &Value) -> Option<Failure> {
+    Some(Failure { key: v["key"].as_str()?.to_string(), desc: v["desc"].as_str()?.to_string(), deadline: v["deadline"].as_bool()? })
+}
+
+/// The child process: everything it found goes into `extra.dual` of its report (the parent
+/// decides what counts); its own violation list stays empty.
+fn dual_child(args: &Args) -> Report {
+    let mut rep = Report::new("C01", &args.tier, "e2e", "exploration");
+    // ---- (a) + (b), before anything else exists in this process that could care
+    let resolver = match dual_enter_namespace().and_then(|()| dual_check_resolver()) {
+        Ok(o) => o,
+        Err(why) => {
+            dual_leave_namespace();
+            rep.extra.insert("dual".into(), json!({"status": "skipped", "reason": why}));
+            return rep;
+        }
+    };
+    install_panic_hook();
+    let b = bounds(args);
+    let env = match Env::new() {
+        Ok(e) => e,
+        Err(e) => {
+            dual_leave_namespace();
+            rep.machinery_error = Some(e);
+            return rep;
+        }
+    };
+    let spec: Option<Value> = std::env::var(DUAL_CASES_ENV).ok().and_then(|t| serde_json::from_str(&t).ok());
+    let (cases, runs): (Vec<Case>, usize) = match &spec {
+        Some(sp) => (sp["cases"].as_array().map(|a| a.iter().filter_map(Case::from_json).collect()).unwrap_or_default(), sp["runs"].as_u64().unwrap_or(1) as usize),
+        None => (dual_matrix(&b), 1),
+    };
+    let tally = Tally::default();
+    let next = AtomicUsize::new(0);
+    let results: Mutex<Vec<(usize, Value)>> = Mutex::new(Vec::new());
+    std::thread::scope(|s| {
+        for w in 0..b.parallel.min(4).min(cases.len().max(1)) {
+            let (cases, env, tally, next, results, b) = (&cases, &env, &tally, &next, &results, &b);
+            std::thread::Builder::new()
+                .name(format!("c01-dual{w}"))
+                .spawn_scoped(s, move || {
+                    loop {
+                        let k = next.fetch_add(1, Ordering::SeqCst);
+                        if k >= cases.len() {
+                            return;
+                        }
+                        let mut run_v = Vec::new();
+                        for _ in 0..runs {
+                            let o = exec(env, &cases[k], b.deadline_s, false, tally);
+                            let t = o.tcp.clone().unwrap_or_default();
+                            run_v.push(json!({
+                                "failures": o.failures.iter().map(failure_json).collect::<Vec<_>>(),
+                                "obs": o.obs,
+                                "vacuous": o.vacuous,
+                                "wall_ms": o.wall.as_millis() as u64,
+                                "stats": {"bytes_verified": t.bytes_verified, "conns_verified": t.conns_verified, "halfclose_eof_seen": t.halfclose_eof_seen, "end_eof": t.end_eof, "end_reset": t.end_reset},
+                            }));
+                        }
+                        results.lock().unwrap_or_else(std::sync::PoisonError::into_inner).push((k, json!({"case": cases[k].to_json(), "runs": run_v})));
+                    }
+                })
+                .expect("spawn dual thread");
+        }
+    });
+    drop(env);
+    dual_leave_namespace();
+    let mut results = results.into_inner().unwrap_or_else(std::sync::PoisonError::into_inner);
+    results.sort_by_key(|(k, _)| *k);
+    let panics = PANICS.lock().unwrap_or_else(std::sync::PoisonError::into_inner);
+    rep.evaluations = tally.executions.load(Ordering::Relaxed);
+    rep.extra.insert(
+        "dual".into(),
+        json!({
+            "status": "ran",
+            "resolver_order": resolver,
+            "results": results.into_iter().map(|(_, v)| v).collect::<Vec<_>>(),
+            "executions": tally.executions.load(Ordering::Relaxed),
+            "port_races": tally.port_races.load(Ordering::Relaxed),
+            "panics": panics.iter().take(10).map(|(t, l, m)| json!({"thread": t, "at": l, "msg": m})).collect::<Vec<_>>(),
+        }),
+    );
+    rep
+}
+
+/// What the parent learns from one child run.
+enum DualRun {
+    /// the sub-matrix cannot be run here (why)
+    Skipped(String),
+    /// the `extra.dual` object of the child's report
+    Ran(Value),
+}
+
+static DUAL_SEQ: AtomicU64 = AtomicU64::new(0);
+
+/// Run the child (whole sub-matrix, or the given cases `runs` times each) and read its report.
+/// Err: the child did not produce a result (a machinery problem).
+fn dual_spawn(args: &Args, tmp: &std::path::Path, cases: Option<(&[Case], usize)>) -> Result<DualRun, String> {
+    let exe = match std::env::current_exe() {
+        Ok(e) => e,
+        Err(e) => return Ok(DualRun::Skipped(format!("cannot find the path of this binary to run it again: {e}"))),
+    };
+    let out = tmp.join(format!("dual-{}.json", DUAL_SEQ.fetch_add(1, Ordering::SeqCst)));
+    let _ = std::fs::remove_file(&out);
+    let mut cmd = std::process::Command::new(exe);
+    cmd.arg("C01").arg("--tier").arg(&args.tier).arg("--out").arg(&out).arg("--threads").arg(args.threads.to_string());
+    cmd.env(DUAL_CHILD_ENV, "1").env_remove(DUAL_CASES_ENV);
+    if let Some((cs, runs)) = cases {
+        cmd.env(DUAL_CASES_ENV, json!({"cases": cs.iter().map(Case::to_json).collect::<Vec<_>>(), "runs": runs}).to_string());
+    }
+    let errp = out.with_extension("err");
+    let errf = std::fs::File::create(&errp).map_or_else(|_| std::process::Stdio::null(), std::process::Stdio::from);
+    cmd.stdin(std::process::Stdio::null()).stdout(std::process::Stdio::null()).stderr(errf);
+    let mut child = match cmd.spawn() {
+        Ok(c) => c,
+        Err(e) => return Ok(DualRun::Skipped(format!("cannot start a child process: {e}"))),
+    };
+    let pid = child.id();
+    let started = std::time::Instant::now();
+    let limit = Duration::from_secs(600);
+    let status = loop {
+        match child.try_wait() {
+            Ok(Some(st)) => break st,
+            Ok(None) if started.elapsed() > limit => {
+                let _ = child.kill();
+                let _ = child.wait();
+                let _ = std::fs::remove_dir_all(dual_tmp_dir(pid));
+                return Err(format!("the dual-stack child process did not finish within {limit:?}"));
+            }
+            Ok(None) => std::thread::sleep(Duration::from_millis(20)),
+            Err(e) => return Err(format!("waiting for the dual-stack child process: {e}")),
+        }
+    };
+    // (the child removes it itself; this is for a child that died)
+    let _ = std::fs::remove_dir_all(dual_tmp_dir(pid));
+    let text = std::fs::read_to_string(&out);
+    let tail = std::fs::read_to_string(&errp).unwrap_or_default();
+    let _ = std::fs::remove_file(&out);
+    let _ = std::fs::remove_file(&errp);
+    let Ok(text) = text else {
+        return Err(format!("the dual-stack child process ended with {status} without a result; stderr: {}", tail.chars().rev().take(600).collect::<String>().chars().rev().collect::<String>()));
+    };
+    let v: Value = serde_json::from_str(&text).map_err(|e| format!("the dual-stack child process wrote an unreadable result: {e}"))?;
+    if let Some(m) = v["machinery_error"].as_str() {
+        return Err(format!("dual-stack child process: {m}"));
+    }
+    let d = &v["extra"]["dual"];
+    match d["status"].as_str() {
+        Some("skipped") => Ok(DualRun::Skipped(d["reason"].as_str().unwrap_or("?").to_string())),
+        Some("ran") => Ok(DualRun::Ran(d.clone())),
+        _ => Err(format!("the dual-stack child process wrote a result without a status: {}", text.chars().take(300).collect::<String>())),
+    }
+}
+
+/// (case, per run: (failures, obs, vacuous, stats)) of a child's result list
+struct DualCaseResult {
+    case: Case,
+    runs: Vec<(Vec<Failure>, Value, Option<String>, TcpStats, u64)>,
+}
+
+fn dual_results(d: &Value) -> Result<Vec<DualCaseResult>, String> {
+    let mut out = Vec::new();
+    for r in d["results"].as_array().ok_or("dual-stack child: no result list")? {
+        let case = Case::from_json(&r["case"]).ok_or_else(|| format!("dual-stack child: cannot interpret the case {}", r["case"]))?;
+        let mut runs = Vec::new();
+        for run in r["runs"].as_array().ok_or("dual-stack child: no run list")? {
+            let failures: Vec<Failure> = run["failures"].as_array().map(|a| a.iter().filter_map(failure_from_json).collect()).unwrap_or_default();
+            let st = &run["stats"];
+            let g = |k: &str| st[k].as_u64().unwrap_or(0);
+            let stats = TcpStats { bytes_verified: g("bytes_verified"), conns_verified: g("conns_verified"), halfclose_eof_seen: g("halfclose_eof_seen"), end_eof: g("end_eof"), end_reset: g("end_reset"), ..TcpStats::default() };
+            runs.push((failures, run["obs"].clone(), run["vacuous"].as_str().map(ToString::to_string), stats, run["wall_ms"].as_u64().unwrap_or(0)));
+        }
+        out.push(DualCaseResult { case, runs });
+    }
+    Ok(out)
+}
+
+// ---------------------------------------------------------------------------------------
 // driver
 // ---------------------------------------------------------------------------------------
 
-fn replay(env: &Env, v: &Value, mut rep: Report, b: &Bounds) -> Report {
+fn replay(env: &Env, v: &Value, mut rep: Report, b: &Bounds, args: &Args) -> Report {
     let Some(case) = Case::from_json(v) else {
         rep.machinery_error = Some(format!("replay: cannot interpret {v}"));
         return rep;
     };
+    if matches!(&case, Case::Tcp(t) if t.dual.is_some()) {
+        // in a child process, inside a private mount namespace made the same way as in the full run
+        match dual_spawn(args, &env.tmp, Some((std::slice::from_ref(&case), 2))).and_then(|r| match r {
+            DualRun::Skipped(why) => Ok(Err(why)),
+            DualRun::Ran(d) => dual_results(&d).map(|rs| Ok((d, rs))),
+        }) {
+            Err(e) => rep.machinery_error = Some(e),
+            Ok(Err(why)) => {
+                rep.rule = format!("replay of one recorded matrix point: SKIPPED, the scenario needs a private mount namespace with a hosts file of its own, which cannot be had here: {why}");
+                rep.bounds.insert("dual_stack_names".into(), json!(format!("skipped: {why}")));
+                rep.extra.insert("dual_stack_names".into(), json!(format!("skipped: {why}")));
+                rep.extra.insert("replayed".into(), case.to_json());
+                rep.extra.insert("skipped".into(), json!(true));
+            }
+            Ok(Ok((d, rs))) => {
+                let mut obs = Vec::new();
+                for r in &rs {
+                    for (run, (failures, o, vacuous, _, _)) in r.runs.iter().enumerate() {
+                        for f in failures {
+                            if f.key == "machinery" {
+                                rep.machinery_error = Some(f.desc.clone());
+                            } else {
+                                rep.violation(f.key.clone(), format!("{} (replay run {run})", f.desc), case.to_json());
+                            }
+                        }
+                        if let Some(why) = vacuous {
+                            rep.extra.insert(format!("run_{run}_vacuous"), json!(why));
+                        }
+                        obs.push(o.clone());
+                    }
+                }
+                rep.evaluations = d["executions"].as_u64().unwrap_or(0);
+                rep.distinct_nontrivial = 1;
+                rep.rule = "replay of one recorded matrix point of the dual-stack-name sub-matrix, executed twice by a child process inside a private mount namespace (hosts file of its own over /etc/hosts; fresh server, client, target and local connection each time; the direct control connection is made again each time)".into();
+                rep.extra.insert("replayed".into(), case.to_json());
+                rep.extra.insert("dual_stack_name_resolver_order".into(), d["resolver_order"].clone());
+                rep.extra.insert("observations_identical".into(), json!(obs.len() == 2 && obs[0] == obs[1]));
+                rep.extra.insert("observations".into(), json!(obs));
+                rep.assumptions.push("schedules are not owned: a failure that depends on the interleaving may not reproduce in a replay".into());
+            }
+        }
+        return rep;
+    }
+    if matches!(&case, Case::Udp(u) if u.topo.two_families()) && !b.udp_two_families {
+        rep.rule = "replay of one recorded matrix point: SKIPPED, the scenario needs the IPv6 loopback address [::1], which does not exist here".into();
+        rep.bounds.insert("ipv6_loopback".into(), json!(false));
+        rep.extra.insert("ipv6_loopback".into(), json!(false));
+        rep.extra.insert("replayed".into(), case.to_json());
+        rep.extra.insert("skipped".into(), json!(true));
+        return rep;
+    }
     if matches!(&case, Case::Tcp(t) if t.entry.v6literal()) && !b.ipv6_loopback {
         // not a verdict and not an error: this machine cannot run the scenario
         rep.rule = "replay of one recorded matrix point: SKIPPED, the scenario needs the IPv6 loopback address [::1], which does not exist here".into();
@@ -410,6 +773,9 @@ fn replay(env: &Env, v: &Value, mut rep: Report, b: &Bounds) -> Report {
 
 #[allow(clippy::too_many_lines)]
 pub fn run(args: &Args) -> Report {
+    if std::env::var_os(DUAL_CHILD_ENV).is_some() {
+        return dual_child(args);
+    }
     let mut rep = Report::new("C01", &args.tier, "e2e", "exploration");
     install_panic_hook();
     let b = bounds(args);
@@ -427,7 +793,7 @@ pub fn run(args: &Args) -> Report {
         }
     };
     if let Some(v) = args.replay_json() {
-        return replay(&env, &v, rep, &b);
+        return replay(&env, &v, rep, &b, args);
     }
 
     let mut cases = matrix(&b);
@@ -451,7 +817,19 @@ pub fn run(args: &Args) -> Report {
     let done_cases = AtomicUsize::new(0);
     let iso_cap: u64 = if args.thorough() { 8 } else { 4 };
 
+    // the dual-stack-name sub-matrix runs in a child process of its own, next to the pool
+    let dual_first: Mutex<Option<Result<DualRun, String>>> = Mutex::new(None);
     std::thread::scope(|s| {
+        {
+            let (dual_first, env) = (&dual_first, &env);
+            std::thread::Builder::new()
+                .name("c01-dual-parent".into())
+                .spawn_scoped(s, move || {
+                    let r = dual_spawn(args, &env.tmp, None);
+                    *dual_first.lock().unwrap_or_else(std::sync::PoisonError::into_inner) = Some(r);
+                })
+                .expect("spawn dual thread");
+        }
         // the real-time scenarios sleep nearly all of their 20+ seconds: they get threads of their
         // own (they are first in the queue), so that `parallel` scenarios that do work stay in flight
         let n_slow = cases.iter().filter(|c| matches!(c, Case::Udp(u) if u.topo.slow())).count();
@@ -566,6 +944,7 @@ pub fn run(args: &Args) -> Report {
                                     match case {
                                         Case::Tcp(t) if t.entry.v6literal() => g.v6_cases_clean += 1,
                                         Case::Udp(u) if u.topo.stray().is_some() => g.stray_cases_clean += 1,
+                                        Case::Udp(u) if u.topo.two_families() => g.families_cases_clean += 1,
                                         _ => {}
                                     }
                                 }
@@ -590,10 +969,115 @@ pub fn run(args: &Args) -> Report {
     });
 
     let mut rep = rep_m.into_inner().unwrap_or_else(std::sync::PoisonError::into_inner);
-    let sums = sums.into_inner().unwrap_or_else(std::sync::PoisonError::into_inner);
+    let mut sums = sums.into_inner().unwrap_or_else(std::sync::PoisonError::into_inner);
+
+    // ---- the dual-stack-name sub-matrix: what the child found, merged (same rules as in the pool:
+    // a failure that is not a deadline hit stands; a deadline hit counts only when it shows again
+    // with the scenario run alone -- by a second child, now that the pool is idle)
+    let mut dual_status = String::from("ran");
+    let mut dual_order = Value::Null;
+    let mut n_dual = 0usize;
+    let mut dual_panics = Value::Null;
+    match dual_first.into_inner().unwrap_or_else(std::sync::PoisonError::into_inner).unwrap_or_else(|| Err("the dual-stack child process was never started".into())).and_then(|r| match r {
+        DualRun::Skipped(why) => Ok(Err(why)),
+        DualRun::Ran(d) => dual_results(&d).map(|rs| Ok((d, rs))),
+    }) {
+        Err(e) => {
+            if rep.machinery_error.is_none() {
+                rep.machinery_error = Some(e);
+            }
+            dual_status = "failed (machinery)".into();
+        }
+        Ok(Err(why)) => dual_status = format!("skipped: {why}"),
+        Ok(Ok((d, rs))) => {
+            dual_order = d["resolver_order"].clone();
+            dual_panics = d["panics"].clone();
+            n_dual = rs.len();
+            tally.executions.fetch_add(d["executions"].as_u64().unwrap_or(0), Ordering::Relaxed);
+            tally.port_races.fetch_add(d["port_races"].as_u64().unwrap_or(0), Ordering::Relaxed);
+            let record = |rep: &mut Report, case: &Case, f: &Failure, note: &str| {
+                if f.key == "machinery" {
+                    if rep.machinery_error.is_none() {
+                        rep.machinery_error = Some(f.desc.clone());
+                    }
+                } else {
+                    rep.violation(f.key.clone(), format!("{}{note}", f.desc), case.to_json());
+                }
+            };
+            let mut confirm: Vec<(Case, usize, Vec<String>, u64)> = Vec::new();
+            for r in &rs {
+                let Some((failures, _, vacuous, stats, wall)) = r.runs.first() else { continue };
+                if vacuous.is_some() {
+                    sums.dual_cases_vacuous += 1;
+                    continue;
+                }
+                let dl_keys: Vec<String> = failures.iter().filter(|f| f.deadline).map(|f| coarse(&f.key)).collect();
+                let mut n_verdict = 0usize;
+                for f in failures.iter().filter(|f| !f.deadline) {
+                    record(&mut rep, &r.case, f, if dl_keys.is_empty() { "" } else { " (first pass)" });
+                    n_verdict += 1;
+                }
+                if dl_keys.is_empty() {
+                    add_tcp(&mut sums.tcp, stats);
+                    sums.max_wall_ms = sums.max_wall_ms.max(u128::from(*wall));
+                    if n_verdict == 0 {
+                        sums.tcp_cases_clean += 1;
+                        sums.dual_cases_clean += 1;
+                    }
+                } else {
+                    confirm.push((r.case.clone(), n_verdict, dl_keys, *wall));
+                }
+            }
+            if !confirm.is_empty() {
+                tally.isolation_runs.fetch_add(confirm.len() as u64, Ordering::SeqCst);
+                let again: Vec<Case> = confirm.iter().map(|c| c.0.clone()).collect();
+                match dual_spawn(args, &env.tmp, Some((&again, 1))).and_then(|r| match r {
+                    DualRun::Skipped(why) => Err(format!("the private mount namespace of the dual-stack child process could be made once but not a second time: {why}")),
+                    DualRun::Ran(d) => {
+                        tally.executions.fetch_add(d["executions"].as_u64().unwrap_or(0), Ordering::Relaxed);
+                        dual_results(&d)
+                    }
+                }) {
+                    Err(e) => {
+                        if rep.machinery_error.is_none() {
+                            rep.machinery_error = Some(e);
+                        }
+                    }
+                    Ok(rs2) => {
+                        for (case, n_verdict, dl_keys, wall1) in &confirm {
+                            let Some((failures, _, _, stats, wall)) = rs2.iter().find(|r| r.case == *case).and_then(|r| r.runs.first()) else {
+                                if rep.machinery_error.is_none() {
+                                    rep.machinery_error = Some(format!("{}: the confirmation run of the dual-stack child process has no result for it", case.label()));
+                                }
+                                continue;
+                            };
+                            add_tcp(&mut sums.tcp, stats);
+                            sums.max_wall_ms = sums.max_wall_ms.max(u128::from(*wall));
+                            if failures.is_empty() {
+                                tally.deadline_not_reproduced.fetch_add(1, Ordering::Relaxed);
+                                if sums.flaky.len() < 20 {
+                                    sums.flaky.push(json!({"case": case.to_json(), "first_pass_keys": dl_keys, "first_pass_wall_ms": wall1}));
+                                }
+                                if *n_verdict == 0 {
+                                    sums.tcp_cases_clean += 1;
+                                    sums.dual_cases_clean += 1;
+                                }
+                            } else {
+                                for f in failures {
+                                    record(&mut rep, case, f, " (confirmed: failed again when run alone)");
+                                }
+                            }
+                        }
+                    }
+                }
+            }
+        }
+    }
+    let n_distinct = n_distinct + n_dual;
+    let n_tcp = n_tcp + n_dual;
     rep.evaluations = tally.executions.load(Ordering::Relaxed);
-    rep.distinct_nontrivial = done_cases.load(Ordering::SeqCst) as u64;
-    let n_done = done_cases.load(Ordering::SeqCst);
+    rep.distinct_nontrivial = (done_cases.load(Ordering::SeqCst) + n_dual) as u64;
+    let n_done = done_cases.load(Ordering::SeqCst) + n_dual;
     rep.exhaustive = n_done == n_distinct;
     if n_done < n_distinct {
         rep.caps_hit.push(format!("wall budget of {} s reached after deadline failures were confirmed: {} of {} matrix points were not run", budget.as_secs(), n_distinct - n_done, n_distinct));
@@ -607,13 +1091,44 @@ pub fn run(args: &Args) -> Report {
     } else {
         "; the IPv6-literal sub-matrix (target on [::1]) is SKIPPED: this machine has no IPv6 loopback address".to_string()
     };
+    let dual_rule = if n_dual > 0 {
+        format!(
+            "; plus the dual-stack-name sub-matrix, run by a child process inside a private mount namespace whose /etc/hosts gives two names both loopback addresses: name ({}: `::1` line first; {}: `127.0.0.1` line first; lookup_host returned {}) x target listens on (127.0.0.1 only, [::1] only, both on one port number) x entry point that takes a host name ({}) x (client->target, target->client) lengths {:?}, {} connection, {}, {}; oracle differential: a direct TcpStream::connect((name, port)) made in the same process just before must work (else the point is vacuous) and then the tunnel has to carry the payloads like everywhere else",
+            DualName::V64.host(),
+            DualName::V46.host(),
+            dual_order,
+            tcp::DUAL_ENTRIES.iter().map(|e| e.name()).collect::<Vec<_>>().join(", "),
+            b.tcp_dual_lens,
+            DUAL_CONC,
+            DUAL_CHUNK.name(),
+            DUAL_ORDER.name()
+        )
+    } else {
+        format!("; the dual-stack-name sub-matrix (target named by a host name with both loopback addresses, in a private mount namespace) is SKIPPED: {}", dual_status.strip_prefix("skipped: ").unwrap_or(&dual_status))
+    };
+    let families_rule = if b.udp_two_families {
+        format!("; plus SOCKS5 UDP (IPv4/IPv6 headers) x ONE association alternating between a target on 127.0.0.1 and a target on [::1] (order A B A B with the IPv4 target first, and with the IPv6 target first) with {}-byte payloads, 4 exchanges, each FIRST transmission judged (see assumptions)", udp::FAMILIES_LEN)
+    } else {
+        "; the SOCKS5 UDP two-address-families topologies are SKIPPED: this machine has no IPv6 loopback address".to_string()
+    };
     let stray_rule = format!("; plus SOCKS5 UDP (IPv4 header, domain header) x stray datagram to the relay port from another local socket after the first exchange ({}) with {}-byte payloads, 3 exchanges", Topo::STRAY.iter().filter_map(|t| t.stray()).map(|(d, n)| format!("{n}: {}", vcommon::report::hex(d))).collect::<Vec<_>>().join(", "), udp::STRAY_LEN);
-    rep.rule = format!("complete product, every point enumerated (no sampling): TCP = entry point (7) x connections {:?} x chunking (3) x [close order (4) x client->target length in L x target->client length in L + target-refuses x client->target length in L], where {len_rule}{v6_rule}; UDP = entry (UDP remote, SOCKS5 UDP with IPv4 header, with domain header) x topology (1 client, 3 clients, 1 socket to 2 entry points, 1 client whose payload lengths change from datagram to datagram (len, 3, len+500, 0, len+1); SOCKS5 only: 1 association alternating between 2 targets with the same host string and different ports, and between 2 targets with different host strings 127.0.0.1/127.0.0.2 and the same port) x payload length, 3 request/reply exchanges per leg{stray_rule}{}; one execution per point (more only after a lost port race or a deadline hit); a case is distinct when its parameter tuple is distinct", b.concs, if b.slow_udp { format!("; plus the real-time scenarios: UDP entry (3) x [steady sender: 1 datagram of {} bytes per second for 2*UDP_PRUNE_TIMEOUT+3 = {} s to a silent target, which then answers the last one | idle: one exchange, {} s of silence, one more exchange | idle gap between one and two prune timeouts: one exchange, {} s of silence, one more exchange from the same socket whose FIRST transmission must be at the target within {} ms]", udp::SLOW_LEN, 2 * udp::prune_timeout().as_secs() + 3, 2 * udp::prune_timeout().as_secs() + 1, udp::prune_timeout().as_secs() + udp::GAP_EXTRA_S, udp::GAP_FIRST_TX_MS) } else { String::new() });
+    rep.rule = format!("complete product, every point enumerated (no sampling): TCP = entry point (7) x connections {:?} x chunking (3) x [close order (4) x client->target length in L x target->client length in L + target-refuses x client->target length in L], where {len_rule}{v6_rule}{dual_rule}; UDP = entry (UDP remote, SOCKS5 UDP with IPv4 header, with domain header) x topology (1 client, 3 clients, 1 socket to 2 entry points, 1 client whose payload lengths change from datagram to datagram (len, 3, len+500, 0, len+1); SOCKS5 only: 1 association alternating between 2 targets with the same host string and different ports, and between 2 targets with different host strings 127.0.0.1/127.0.0.2 and the same port) x payload length, 3 request/reply exchanges per leg{stray_rule}{families_rule}{}; one execution per point (more only after a lost port race or a deadline hit); a case is distinct when its parameter tuple is distinct", b.concs, if b.slow_udp { format!("; plus the real-time scenarios: UDP entry (3) x [steady sender: 1 datagram of {} bytes per second for 2*UDP_PRUNE_TIMEOUT+3 = {} s to a silent target, which then answers the last one | idle: one exchange, {} s of silence, one more exchange | idle gap between one and two prune timeouts: one exchange, {} s of silence, one more exchange from the same socket whose FIRST transmission must be at the target within {} ms]", udp::SLOW_LEN, 2 * udp::prune_timeout().as_secs() + 3, 2 * udp::prune_timeout().as_secs() + 1, udp::prune_timeout().as_secs() + udp::GAP_EXTRA_S, udp::GAP_FIRST_TX_MS) } else { String::new() });
     rep.bounds.insert("tcp_entry_points".into(), json!(Entry::ALL.iter().map(|e| e.name()).collect::<Vec<_>>()));
     rep.bounds.insert("ipv6_loopback".into(), json!(b.ipv6_loopback));
     rep.bounds.insert("tcp_ipv6_literal_entry_points".into(), json!(if b.ipv6_loopback { Entry::V6.iter().map(|e| e.name()).collect::<Vec<_>>() } else { Vec::new() }));
     rep.bounds.insert("tcp_ipv6_literal_payload_lengths_c2t_t2c".into(), json!(b.tcp_v6_lens));
     rep.bounds.insert("tcp_ipv6_literal_cases".into(), json!(cases.iter().filter(|c| matches!(c, Case::Tcp(t) if t.entry.v6literal())).count()));
+    rep.bounds.insert("dual_stack_names".into(), json!(dual_status));
+    rep.bounds.insert("dual_stack_name_hosts_file".into(), json!(tcp::dual_hosts_file()));
+    rep.bounds.insert("dual_stack_name_resolver_order".into(), dual_order.clone());
+    rep.bounds.insert("dual_stack_name_entry_points".into(), json!(if n_dual > 0 { tcp::DUAL_ENTRIES.iter().map(|e| e.name()).collect::<Vec<_>>() } else { Vec::new() }));
+    rep.bounds.insert("dual_stack_name_target_listens_on".into(), json!(if n_dual > 0 { Listen::ALL.iter().map(|e| e.name()).collect::<Vec<_>>() } else { Vec::new() }));
+    rep.bounds.insert("dual_stack_name_payload_lengths_c2t_t2c".into(), json!(b.tcp_dual_lens));
+    rep.bounds.insert("dual_stack_name_cases".into(), json!(n_dual));
+    rep.bounds.insert("udp_ipv6_loopback".into(), json!(b.udp_two_families));
+    rep.bounds.insert("udp_two_address_families_topologies".into(), json!(if b.udp_two_families { Topo::FAMILIES.iter().map(|e| e.name()).collect::<Vec<_>>() } else { Vec::new() }));
+    rep.bounds.insert("udp_two_address_families_payload_length".into(), json!(udp::FAMILIES_LEN));
+    rep.bounds.insert("udp_two_address_families_cases".into(), json!(cases.iter().filter(|c| matches!(c, Case::Udp(u) if u.topo.two_families())).count()));
     rep.bounds.insert("udp_stray_datagram_topologies".into(), json!(Topo::STRAY.iter().map(|e| e.name()).collect::<Vec<_>>()));
     rep.bounds.insert("udp_stray_datagram_payload_length".into(), json!(udp::STRAY_LEN));
     rep.bounds.insert("udp_stray_datagram_cases".into(), json!(cases.iter().filter(|c| matches!(c, Case::Udp(u) if u.topo.stray().is_some())).count()));
@@ -635,6 +1150,12 @@ pub fn run(args: &Args) -> Report {
     rep.extra.insert("ipv6_loopback".into(), json!(b.ipv6_loopback));
     rep.extra.insert("tcp_ipv6_literal_cases_clean".into(), json!(sums.v6_cases_clean));
     rep.extra.insert("udp_stray_datagram_cases_clean".into(), json!(sums.stray_cases_clean));
+    rep.extra.insert("udp_two_address_families_cases_clean".into(), json!(sums.families_cases_clean));
+    rep.extra.insert("dual_stack_names".into(), json!(dual_status));
+    rep.extra.insert("dual_stack_name_resolver_order".into(), dual_order.clone());
+    rep.extra.insert("dual_stack_name_cases_clean".into(), json!(sums.dual_cases_clean));
+    rep.extra.insert("dual_stack_name_cases_vacuous_direct_connection_fails_too".into(), json!(sums.dual_cases_vacuous));
+    rep.extra.insert("dual_stack_child_panics".into(), dual_panics);
     rep.extra.insert("executions".into(), json!(tally.executions.load(Ordering::Relaxed)));
     rep.extra.insert("time_wait_throttle_ms_total".into(), json!(tally.throttle_ms.load(Ordering::Relaxed)));
     rep.extra.insert("subject_listener_port_pool".into(), json!(super::c01_env::port_pool_range()));
@@ -678,7 +1199,13 @@ pub fn run(args: &Args) -> Report {
         rep.caps_hit.push(format!("after two deadline failures were confirmed alone, the remaining scenarios ran with a {SHORT_DEADLINE_S} s deadline and repeated failures were counted without a re-run (counts of those keys are approximate)"));
     }
     // samples: one per kind of scenario
-    let picks: [&dyn Fn(&Case) -> bool; 8] = [
+    if n_dual > 0 {
+        if let Some(c) = dual_matrix(&b).iter().find(|c| matches!(c, Case::Tcp(t) if t.entry == Entry::Socks5Domain && t.dual.is_some_and(|d| d.listen == Listen::V4))) {
+            rep.sample(c.to_json());
+        }
+    }
+    let picks: [&dyn Fn(&Case) -> bool; 9] = [
+        &|c| matches!(c, Case::Udp(u) if u.topo == Topo::TwoFamilies),
         &|c| matches!(c, Case::Tcp(t) if t.entry == Entry::HttpConnectV6 && t.c2t > 1),
         &|c| matches!(c, Case::Udp(u) if u.kind == UKind::SocksIp && u.topo == Topo::StrayAtyp),
         &|c| matches!(c, Case::Tcp(t) if t.order == Order::ClientHalf && t.conc > 1 && t.c2t > 1 && t.t2c > 1 && t.entry == Entry::Socks5Domain),
@@ -699,10 +1226,12 @@ pub fn run(args: &Args) -> Report {
     rep.assumptions.push("how a read ends after BOTH directions are finished (EOF or reset) is recorded, not judged; a half-close must arrive as a true EOF and the data sent after it must arrive completely".into());
     rep.assumptions.push("target refuses: a SOCKS/HTTP success answer followed by a close, a refusal answer, or a close before the answer all count as 'closed rather than left hanging'".into());
     rep.assumptions.push("the address inside the SOCKS5 UDP reply header is recorded (extra.socks5_udp_header_addr_*), not judged: the statement only demands a well-formed header that can be stripped".into());
-    rep.assumptions.push("loopback only (127.0.0.1, a Unix socket and, for the targets of the IPv6-literal sub-matrix where it exists, [::1]); plain ws:// between client and server; keep-alive off; fresh client+server per matrix point".into());
+    rep.assumptions.push("loopback only (127.0.0.1, a Unix socket and, for the targets of the IPv6-literal, dual-stack-name and two-address-families sub-matrices where it exists, [::1]); plain ws:// between client and server; keep-alive off; fresh client+server per matrix point".into());
     rep.assumptions.push("UDP loss tolerance: a request is retransmitted up to 5 times over 21.5 s before its reply counts as missing".into());
     rep.assumptions.push(format!("exceptions to the UDP loss tolerance, both judged on purpose before the schedule is used up: (a) idle-gap scenario: the FIRST datagram after the gap has {} ms to show up at the target (a deadline-type failure: it counts only when it shows again with the scenario run alone); (b) stray-datagram scenarios: an exchange unanswered after 3 transmissions is declared dead only if a fresh association through the same client, server and target then works and a 4th transmission on the old association (waiting at least 1 s and at least 20 times what the fresh association took) still gets nothing", udp::GAP_FIRST_TX_MS));
-    rep.assumptions.push("IPv6-literal sub-matrix: a scenario in which every local connection has ended short of the target's payload while the target was never connected to is closed at once (key tcp.closed.target-not-reached.*) instead of waiting for the deadline".into());
+    rep.assumptions.push(format!("two-address-families scenarios (SOCKS5 UDP, one association, targets on 127.0.0.1 and [::1] in turn): a third exception to the UDP loss tolerance. The FIRST transmission of every exchange after the first has {} ms to show up at its target; if it has not, a fresh association through the same client and server makes one exchange with that very target (full loss tolerance); if that works and the datagram of the old association is still not at the target after at least 1 s and at least 20 times what the fresh association took, it is judged not delivered (key {}, not a deadline-type failure); the retransmissions then go on as usual", udp::FAMILIES_FIRST_TX_MS, udp::FAMILY_KEY));
+    rep.assumptions.push("dual-stack-name sub-matrix: what the resolver answers is controlled by a hosts file bind-mounted over /etc/hosts inside a private mount namespace of a child process (needs CAP_SYS_ADMIN; glibc's `files` NSS module); where that cannot be had the sub-matrix is skipped (bounds.dual_stack_names says why). The expectation is observed, not written down: a direct connection to (name, port) from the same process. The order of the addresses is whatever getaddrinfo returns (RFC 6724 sorting: recorded in bounds.dual_stack_name_resolver_order), so which listening set exposes a server that tries only the first address depends on the machine".into());
+    rep.assumptions.push("IPv6-literal and dual-stack-name sub-matrices: a scenario in which every local connection has ended short of the target's payload (dual-stack names: or got a refusal / a close instead of the grant) while the target was never connected to is closed at once (key tcp.closed.target-not-reached.*) instead of waiting for the deadline".into());
 
     if sums.unconfirmed > 0 {
         rep.caps_hit.push(format!("{} scenario(s) hit a deadline after the {iso_cap} confirmation runs (alone, full deadline) were used up; they carry no verdict", sums.unconfirmed));
@@ -725,7 +1254,7 @@ pub fn run(args: &Args) -> Report {
         if sums.udp.replies_verified == 0 || sums.udp.socks_headers_parsed == 0 {
             why.push("no UDP reply / SOCKS5 UDP header was verified");
         }
-        if (sums.tcp_cases_clean + sums.refuse_cases_clean + sums.udp_cases_clean) as usize != n_distinct {
+        if (sums.tcp_cases_clean + sums.refuse_cases_clean + sums.udp_cases_clean + sums.dual_cases_vacuous) as usize != n_distinct {
             why.push("clean cases do not add up to the matrix");
         }
         if !why.is_empty() {
